@@ -5,6 +5,7 @@ import (
 	"fmt"
 	"sort"
 	"testing"
+	"time"
 
 	"github.com/weedbox/pokerface/table"
 	"pgregory.net/rapid"
@@ -29,6 +30,9 @@ type tableCase struct {
 }
 
 func runTableCase(c *tableCase, st *vlib.Stats) (v *vlib.Violation, hands int) {
+	vlib.StartWatchdog(90 * time.Second)
+	vlib.Busy()
+	defer vlib.Idle()
 	defer func() {
 		if e := recover(); e != nil {
 			v = nil // a crash is C18's business
